@@ -1,5 +1,6 @@
 import YaqsModel.Basic.Parse
 import YaqsModel.Model.Layers
+import YaqsModel.Model.GateWindow
 /-!
 line protocol for the layer loop (C02, C16)
 
@@ -14,6 +15,15 @@ line protocol for the layer loop (C02, C16)
   `count | instr …`   → `<countMid> <#sampling barriers process_layer would see>`
   `gen <a> <b>`       → `first_site last_site first_gen second_gen`
   `win <L> <first> <last>` → `lo hi`
+
+  requests for `Model/GateWindow.lean` (xg02 extension; tensors travel as row-major entry lists, every entry `re im`):
+  `gplan <L> <a> <b>`  → `first last fgen sgen lo hi n p sh:<centre shifts of apply_window, or -> | <step tokens of the digital two-site sweep on the window>`
+        step tokens: `m:<i>` · `P:<i>:<dt>:<idL|gate|idR>` · `x:<i>:R` · `s:<j>:<dt>:<idL|idR>`
+  `mergeket p0 p1 a m b | A0 | A1`           → `p0*p1 a b` and the entries of `merge_mps_tensors(A0, A1)`
+  `mergeop o0 p0 o1 p1 l m r | W0 | W1`      → `o0*o1 p0*p1 l r` and the entries of `merge_mpo_tensors(W0, W1)`
+  `pairapply p0 p1 a m b l r | L | R | W0 | W1 | A0 | A1`
+        → `p0*p1 a b` and the entries of `project_site(L, R, merge_mpo_tensors(W0, W1), merge_mps_tensors(A0, A1))`
+          (`L : (a,l,a)`, `R : (b,r,b)`, `W0 : (p0,p0,l,1)`, `W1 : (p1,p1,1,r)`, `A0 : (p0,a,m)`, `A1 : (p1,m,b)`)
 -/
 open Yaqs Yaqs.Layers
 
@@ -85,8 +95,95 @@ def handleRun (variant : String) (mode : Mode) (raw : List RawInstr) : String :=
   | some (none, _) => "hang"
   | some (some evs, n) => joinWith " " (s!"cols={n}" :: evs.map showEvent)
 
+
+namespace GateDrv
+open Yaqs.Heff Yaqs.GateWindow
+
+def parseC? : List String → Option (List CRat)
+  | [] => some []
+  | [_] => none
+  | r :: i :: rest => do
+    let re ← parseRat? r
+    let im ← parseRat? i
+    let tl ← parseC? rest
+    pure (⟨re, im⟩ :: tl)
+
+def parseArr? (n : Nat) (ws : List String) : Option (Array CRat) :=
+  match parseC? ws with
+  | some l => if l.length = n then some l.toArray else none
+  | none => none
+
+def showC (z : CRat) : String := showRat z.re ++ " " ++ showRat z.im
+def showCs (l : List CRat) : String := joinWith " " (l.map showC)
+
+def entries4 (d0 d1 d2 d3 : Nat) (t : Nat → Nat → Nat → Nat → CRat) : List CRat :=
+  (List.range d0).flatMap fun i => (List.range d1).flatMap fun j => (List.range d2).flatMap fun k =>
+    (List.range d3).map fun m => t i j k m
+
+def nats? (ws : List String) : Option (List Nat) := parseAll? String.toNat? ws
+
+def gplan (l a b : Nat) : String :=
+  if a = b ∨ l ≤ a ∨ l ≤ b then "bad-op" else
+  let pl := gatePlan l a b
+  joinWith " " ([toString pl.placement.1.1, toString pl.placement.2.1, toString pl.placement.1.2,
+    toString pl.placement.2.2, toString pl.win.1, toString pl.win.2, toString pl.n, toString pl.p,
+    "sh:" ++ (if pl.shifts.isEmpty then "-" else joinWith "," (pl.shifts.map toString)), "|"] ++ planTokens pl)
+
+def mergeket (ds : List Nat) (parts : List (List String)) : String :=
+  match ds, parts with
+  | [p0, p1, a, m, b], [w0, w1] =>
+    match parseArr? (p0 * a * m) w0, parseArr? (p1 * m * b) w1 with
+    | some x0, some x1 =>
+      s!"{p0 * p1} {a} {b} " ++ showCs (entries3 (p0 * p1) a b (mergeKet p1 m (ofFlat3 a m x0) (ofFlat3 m b x1)))
+    | _, _ => "bad-op"
+  | _, _ => "bad-op"
+
+def mergeop (ds : List Nat) (parts : List (List String)) : String :=
+  match ds, parts with
+  | [o0, p0, o1, p1, l, m, r], [w0, w1] =>
+    match parseArr? (o0 * p0 * l * m) w0, parseArr? (o1 * p1 * m * r) w1 with
+    | some x0, some x1 =>
+      s!"{o0 * o1} {p0 * p1} {l} {r} " ++
+        showCs (entries4 (o0 * o1) (p0 * p1) l r (mergeOp o1 p1 m (ofFlat4 p0 l m x0) (ofFlat4 p1 m r x1)))
+    | _, _ => "bad-op"
+  | _, _ => "bad-op"
+
+def pairapply (ds : List Nat) (parts : List (List String)) : String :=
+  match ds, parts with
+  | [p0, p1, a, m, b, l, r], [lw, rw, w0, w1, k0, k1] =>
+    match parseArr? (a * l * a) lw, parseArr? (b * r * b) rw, parseArr? (p0 * p0 * l * 1) w0,
+        parseArr? (p1 * p1 * 1 * r) w1, parseArr? (p0 * a * m) k0, parseArr? (p1 * m * b) k1 with
+    | some la, some ra, some x0, some x1, some a0, some a1 =>
+      let d0 : SiteDims := ⟨p0, p0, a, a, m, m, l, 1⟩
+      let d1 : SiteDims := ⟨p1, p1, m, m, b, b, 1, r⟩
+      let dP := pairDims d0 d1
+      let W := mergeOp p1 p1 1 (ofFlat4 p0 l 1 x0) (ofFlat4 p1 1 r x1)
+      let θ := mergeKet p1 m (ofFlat3 a m a0) (ofFlat3 m b a1)
+      s!"{p0 * p1} {a} {b} " ++
+        showCs (entries3 (p0 * p1) a b (projectSite dP (ofFlat3 l a la) (ofFlat3 r b ra) W θ))
+    | _, _, _, _, _, _ => "bad-op"
+  | _, _ => "bad-op"
+
+end GateDrv
+
 def handle (line : String) : String :=
   match splitBar (words line) with
+  | [["gplan", l, a, b]] =>
+    match l.toNat?, a.toNat?, b.toNat? with
+    | some l, some a, some b => GateDrv.gplan l a b
+    | _, _, _ => "bad-op"
+  | ("mergeket" :: ds) :: parts =>
+    match GateDrv.nats? ds with
+    | some ds => GateDrv.mergeket ds parts
+    | none => "bad-op"
+  | ("mergeop" :: ds) :: parts =>
+    match GateDrv.nats? ds with
+    | some ds => GateDrv.mergeop ds parts
+    | none => "bad-op"
+  | ("pairapply" :: ds) :: parts =>
+    match GateDrv.nats? ds with
+    | some ds => GateDrv.pairapply ds parts
+    | none => "bad-op"
   | [["gen", a, b]] =>
     match a.toNat?, b.toNat? with
     | some a, some b =>
